@@ -1,5 +1,306 @@
-// stub: check for C03 not built yet
+use std::collections::HashMap;
+
+use c03::*;
+use vcore::proptest::prelude::*;
+use vcore::proptest::strategy::Union;
+use vcore::{Cx, Level as VLevel, Res};
+
+const RULE: &str = "a case is a well-nested program tree over {Check(observation form) | Frame{instance A/B/shared, ctxt wrapper (direct, &, Box, Arc, Option Some/None, AssertInternal, dyn ErasedCtxt with 1-word/2-word inline and boxed-by-size/boxed-by-alignment frames, Box<dyn>), kind push/root/disabled/current, created via Frame::* or ctxt.open_*, <=4 props with distinct keys from an 8-key alphabet, how = guard | with | call | in_fn | in_fn on a fresh thread | in_future | enter-twice | manual into_parts/enter/exit/from_parts | manual ... close, body} | Create (frame kept for later) | Enter{stored frame, how, body} (deferred enter, re-entry, frames carried in from elsewhere) | CatchPanic{body} | Panic | Thread{carried frames, body} (fresh OS thread, joined) | Join{tasks with carried frames, poll schedule} (single-thread executor) | Yield}, nesting depth <=6, interpreted against the real emit code and a lexical model in lock-step. Non-trivial = at some point >=2 frames are simultaneously active on one thread AND the run contains at least one of: a frame entered on another thread than the one it was created on; a task holding an in_future frame resumed after another task of the same executor ran; a panic unwinding through >=1 entered frame; a Frame value entered for the second time; a frame entered while a frame of a different context instance is active on the same thread.";
+
+const ASSUMPTIONS: [&str; 6] = [
+    "the model is lexical: the value of a frame is fixed at creation (push = visible-at-creation overlaid by own props; root = own props; disabled/current = visible-at-creation) and what is visible at a program point is the value of the innermost frame of that instance active at that point of that thread/task; nothing of the implementation (swap, ids, Arc'd maps) is modelled",
+    "a disabled frame that is entered somewhere else than where it was created shows what was visible where it was created (rustdoc: 'props could have been pushed, but were filtered out', i.e. a push of nothing); created-and-entered-in-place this coincides with 'adds nothing'",
+    "values are compared by their Display text against the Display of the value handed in, plus a typed read (i64/bool/TraceId/SpanId via Value::cast) for values that went in with that type; deeper value fidelity is C19's subject",
+    "only stack-ordered programs are generated: a guard is never held across a suspension point and frames exit in reverse order of entry (the statement is restricted to those)",
+    "threads are sequentialised (spawned, joined, then the parent continues): state is thread-local so real parallelism adds nothing to the claim; tasks are interleaved on one thread by a hand-rolled executor in the generated order",
+    "a frame on Option::<Ctxt>::None shows nothing, changes nothing anywhere, and observation through None is empty",
+];
+
+fn val() -> impl Strategy<Value = Val> {
+    prop_oneof![
+        4 => (-3i64..=3).prop_map(Val::I),
+        1 => any::<i64>().prop_map(Val::I),
+        1 => any::<bool>().prop_map(Val::B),
+        2 => prop::sample::select(vec!["", "x", "y", "é", "0af7651916cd43dd8448eb211c80319c"]).prop_map(|s| Val::S(s.to_string())),
+        1 => (-8i32..=8).prop_map(|v| Val::F(v as f64 / 4.0)),
+        1 => prop_oneof![(Just(0u64), 1u64..=3), (any::<u64>(), any::<u64>())].prop_map(|(h, l)| Val::T(h, l)),
+        1 => prop_oneof![1u64..=3, any::<u64>().prop_map(|v| v | 1)].prop_map(Val::P),
+        1 => prop::collection::vec(-2i64..=2, 0..=2).prop_map(Val::L),
+    ]
+}
+
+fn wrap() -> impl Strategy<Value = Wrap> {
+    prop_oneof![
+        6 => Just(Wrap::Direct),
+        2 => Just(Wrap::Ref),
+        1 => Just(Wrap::Boxed),
+        1 => Just(Wrap::Arced),
+        1 => Just(Wrap::OptSome),
+        1 => Just(Wrap::OptNone),
+        1 => Just(Wrap::Internal),
+        3 => Just(Wrap::Dyn),
+        2 => Just(Wrap::DynEdge),
+        3 => Just(Wrap::DynBig),
+        2 => Just(Wrap::DynAligned),
+        1 => Just(Wrap::BoxDyn),
+        1 => Just(Wrap::BoxDynBig),
+        1 => Just(Wrap::Pad),
+    ]
+}
+
+fn spec() -> impl Strategy<Value = Spec> {
+    (
+        prop_oneof![4 => Just(0u8), 3 => Just(1u8), 3 => Just(2u8)],
+        wrap(),
+        prop_oneof![6 => Just(Kind::Push), 2 => Just(Kind::Root), 1 => Just(Kind::Disabled), 1 => Just(Kind::Current)],
+        prop::bool::weighted(0.2),
+        prop::collection::vec((0u8..8, val()), 0..=4),
+    )
+        .prop_map(|(inst, wrap, kind, via_ctxt, props)| Spec {
+            inst,
+            wrap,
+            kind,
+            via_ctxt,
+            props,
+        })
+}
+
+fn obs() -> impl Strategy<Value = Obs> {
+    prop_oneof![
+        6 => Just(Obs::Direct),
+        10 => prop::sample::select(ALL_OBS.to_vec()),
+        1 => Just(Obs::All),
+    ]
+}
+
+fn how_sync() -> impl Strategy<Value = How> {
+    prop_oneof![
+        5 => Just(How::Guard),
+        2 => Just(How::With),
+        2 => Just(How::Call),
+        2 => Just(How::InFn),
+        1 => Just(How::InFnThread),
+        2 => Just(How::EnterTwice),
+        2 => Just(How::Manual),
+        1 => Just(How::ManualClose),
+    ]
+}
+
+type Memo = HashMap<(u32, bool, bool), BoxedStrategy<Vec<Node>>>;
+
+fn carry() -> impl Strategy<Value = Vec<u32>> {
+    prop::collection::vec(any::<u32>(), 0..=2)
+}
+
+fn node(depth: u32, can_yield: bool, in_catch: bool, memo: &mut Memo) -> BoxedStrategy<Node> {
+    let mut alts: Vec<(u32, BoxedStrategy<Node>)> = vec![
+        (8, obs().prop_map(Node::Check).boxed()),
+        (6, spec().prop_map(Node::Create).boxed()),
+        (
+            2,
+            (any::<u32>(), prop_oneof![how_sync(), Just(How::InFuture)])
+                .prop_map(|(slot, how)| Node::Enter {
+                    slot,
+                    how,
+                    body: vec![],
+                })
+                .boxed(),
+        ),
+    ];
+    if can_yield {
+        alts.push((8, Just(Node::Yield).boxed()));
+    }
+    if in_catch {
+        alts.push((5, Just(Node::Panic).boxed()));
+    }
+    if depth > 0 {
+        let sync_body = body(depth - 1, false, in_catch, memo);
+        let fut_body = body(depth - 1, true, in_catch, memo);
+        let same_body = body(depth - 1, can_yield, true, memo);
+        alts.push((
+            8,
+            (spec(), how_sync(), sync_body.clone())
+                .prop_map(|(spec, how, body)| Node::Frame { spec, how, body })
+                .boxed(),
+        ));
+        alts.push((
+            if can_yield { 7 } else { 3 },
+            (spec(), fut_body.clone())
+                .prop_map(|(spec, body)| Node::Frame {
+                    spec,
+                    how: How::InFuture,
+                    body,
+                })
+                .boxed(),
+        ));
+        alts.push((
+            3,
+            (any::<u32>(), how_sync(), sync_body.clone())
+                .prop_map(|(slot, how, body)| Node::Enter { slot, how, body })
+                .boxed(),
+        ));
+        alts.push((
+            if can_yield { 2 } else { 1 },
+            (any::<u32>(), fut_body.clone())
+                .prop_map(|(slot, body)| Node::Enter {
+                    slot,
+                    how: How::InFuture,
+                    body,
+                })
+                .boxed(),
+        ));
+        alts.push((2, same_body.clone().prop_map(Node::CatchPanic).boxed()));
+        // skeleton: a panic raised inside an entered frame, caught outside of it
+        let deeper = depth.saturating_sub(2);
+        let in_sync = body(deeper, false, true, memo);
+        let in_fut = body(deeper, true, true, memo);
+        let panicking_frame = prop_oneof![
+            3 => (spec(), how_sync(), in_sync).prop_map(|(spec, how, mut body)| {
+                body.push(Node::Panic);
+                Node::Frame { spec, how, body }
+            }),
+            1 => (spec(), in_fut.clone()).prop_map(|(spec, mut body)| {
+                body.push(Node::Panic);
+                Node::Frame { spec, how: How::InFuture, body }
+            }),
+        ];
+        alts.push((
+            2,
+            (same_body.clone(), panicking_frame, same_body)
+                .prop_map(|(mut pre, f, post)| {
+                    pre.truncate(1);
+                    pre.push(f);
+                    pre.extend(post.into_iter().take(1));
+                    Node::CatchPanic(pre)
+                })
+                .boxed(),
+        ));
+        alts.push((
+            2,
+            (carry(), sync_body)
+                .prop_map(|(carry, body)| Node::Thread { carry, body })
+                .boxed(),
+        ));
+        // tasks: mostly "a frame-wrapped future that suspends at least once", sometimes anything
+        let in_fut_plain = body(deeper, true, in_catch, memo);
+        let suspending = (spec(), in_fut_plain.clone(), in_fut_plain.clone(), fut_body.clone()).prop_map(|(spec, mut a, b, mut pre)| {
+            a.push(Node::Yield);
+            a.extend(b);
+            pre.truncate(1);
+            pre.push(Node::Frame {
+                spec,
+                how: How::InFuture,
+                body: a,
+            });
+            pre
+        });
+        let task = (carry(), prop_oneof![3 => suspending, 2 => fut_body])
+            .prop_map(|(carry, body)| Task { carry, body })
+            .boxed();
+        alts.push((
+            3,
+            (
+                prop_oneof![1 => prop::collection::vec(task.clone(), 1..=1), 5 => prop::collection::vec(task.clone(), 2..=2), 2 => prop::collection::vec(task, 3..=4)],
+                prop::collection::vec(any::<u32>(), 0..=12),
+            )
+                .prop_map(|(tasks, schedule)| Node::Join { tasks, schedule })
+                .boxed(),
+        ));
+    }
+    Union::new_weighted(alts).boxed()
+}
+
+fn body(depth: u32, can_yield: bool, in_catch: bool, memo: &mut Memo) -> BoxedStrategy<Vec<Node>> {
+    if let Some(s) = memo.get(&(depth, can_yield, in_catch)) {
+        return s.clone();
+    }
+    let n = node(depth, can_yield, in_catch, memo);
+    let s = prop::collection::vec(n, if depth >= 3 { 0..=3 } else { 0..=2 }).boxed();
+    memo.insert((depth, can_yield, in_catch), s.clone());
+    s
+}
+
+fn program() -> BoxedStrategy<Case> {
+    let mut memo = Memo::new();
+    let n = node(5, false, false, &mut memo);
+    prop::collection::vec(n, 1..=6).prop_map(|prog| Case { prog }).boxed()
+}
+
+fn count(nodes: &[Node]) -> usize {
+    nodes
+        .iter()
+        .map(|n| {
+            1 + match n {
+                Node::Frame { body, .. } | Node::Enter { body, .. } | Node::CatchPanic(body) | Node::Thread { body, .. } => count(body),
+                Node::Join { tasks, .. } => tasks.iter().map(|t| count(&t.body)).sum(),
+                _ => 0,
+            }
+        })
+        .sum()
+}
+
+fn check(case: &Case, cx: &mut Cx) -> Res {
+    match run_case(case) {
+        Ok(stats) => {
+            for l in &stats.labels {
+                cx.class(l);
+            }
+            let has = |l: &str| stats.labels.contains(l);
+            let deep = stats.max_depth >= 2;
+            cx.class_if(deep, "depth>=2");
+            cx.class_if(stats.max_depth >= 4, "depth>=4");
+            let any = has("hop:thread-carried-frame") || has("tasks:interleaved") || has("panic:through-frame") || has("reentry") || has("second-instance");
+            // the five required classes are counted only where the case is also deep
+            if deep {
+                cx.class_if(has("hop:thread-carried-frame"), "nt:thread-hop");
+                cx.class_if(has("tasks:interleaved"), "nt:interleaved-tasks");
+                cx.class_if(has("panic:through-frame"), "nt:panic-through-frame");
+                cx.class_if(has("reentry"), "nt:reentry");
+                cx.class_if(has("second-instance"), "nt:second-instance");
+            }
+            cx.nontrivial(deep && any);
+            let n = count(&case.prog);
+            cx.class(match n {
+                0..=5 => "stmts:1-5",
+                6..=15 => "stmts:6-15",
+                16..=40 => "stmts:16-40",
+                _ => "stmts:>40",
+            });
+            Ok(())
+        }
+        Err(f) => cx.fail(f.sig, f.msg),
+    }
+}
+
 fn main() {
-    eprintln!("C03: check not built yet");
-    std::process::exit(2);
+    vcore::run("C03", VLevel::Exploration, RULE, &ASSUMPTIONS, |s| {
+        // required: each >= 5 % of the quick tier's cases in practice; the minimum is set >= 10x lower
+        let q = s.n(60_000, 60_000);
+        for c in [
+            "depth>=2",
+            "nt:thread-hop",
+            "nt:interleaved-tasks",
+            "nt:panic-through-frame",
+            "nt:reentry",
+            "nt:second-instance",
+        ] {
+            s.require(c, q / 200);
+        }
+        for c in [
+            "wrap:dyn-inline",
+            "wrap:dyn-inline-at-limit",
+            "wrap:dyn-boxed-by-size",
+            "wrap:dyn-boxed-by-align",
+            "how:in_future",
+            "how:manual",
+            "yield:suspends-frame",
+            "deferred:entered-where-something-else-is-visible",
+            "kind:root",
+            "kind:disabled",
+            "kind:current",
+        ] {
+            s.require(c, q / 400);
+        }
+        s.gen("programs", s.n(60_000, 2_000_000), program, check);
+    })
 }
